@@ -3,7 +3,7 @@
 patch=$1; shift
 cd /repo || exit 2
 if [ -n "$(git status --porcelain --untracked-files=no)" ]; then echo "/repo not clean"; exit 2; fi
-git apply "$patch" 2>/dev/null || git apply --3way "$patch" 2>/dev/null || { echo "PATCH DOES NOT APPLY: $patch"; git checkout -q -- .; exit 3; }
+git apply "$patch" 2>/dev/null || git apply --3way "$patch" 2>/dev/null || { echo "PATCH DOES NOT APPLY: $patch"; git reset -q --hard HEAD; exit 3; }
 cd /verif
 for c in "$@"; do
   out=$(VERIF_TIER=${TIER:-quick} ./check $c 2>&1); rc=$?
